@@ -429,6 +429,7 @@ func structLiteralInvocation(r *ev.Run) {
 	top.Ret = append(top.Ret, progen.Bind{Name: "wm", E: progen.Ref("TAKE_WM", "y")})
 	p.Desc = "struct-literal-with-map-members-from-upstream"
 	checkForkInvocations(r, p, p.Desc)
+	checkForkInvocationsAt(r, p, p.Desc, true)
 }
 
 // forkInvocations: per-fork _invocation files of real runs.
@@ -477,13 +478,27 @@ func forkInvocations(r *ev.Run) {
 			continue
 		}
 		checkForkInvocations(r, p, d.String())
+		if d.Map != "" || d.Kind == "struct" {
+			// mapped calls and struct arguments once more with the
+			// declarations below a sibling MROPATH entry
+			checkForkInvocationsAt(r, p, d.String(), true)
+		}
 	}
 }
 
 func checkForkInvocations(r *ev.Run, p *progen.Program, name string) {
+	checkForkInvocationsAt(r, p, name, false)
+}
+
+// checkForkInvocationsAt: sibling = the declarations are included from a
+// second MROPATH entry whose name extends the first one's.
+func checkForkInvocationsAt(r *ev.Run, p *progen.Program, name string, sibling bool) {
 	{
 		d := nameStringer(name)
-		res := psx.Run(p, psx.Schedule{}, psx.Options{Inspect: func(res *psx.Result) {
+		if sibling {
+			d = nameStringer(name + " [MROPATH mro:mro_stages]")
+		}
+		res := psx.Run(p, psx.Schedule{}, psx.Options{SiblingPaths: sibling, Inspect: func(res *psx.Result) {
 			if res.State != "complete" {
 				return
 			}
@@ -500,11 +515,11 @@ func checkForkInvocations(r *ev.Run, p *progen.Program, name string) {
 					r.Report(ev.Finding{Sig: "C16:fork-invocation-missing", What: d.String() + ": no _invocation recorded for " + j.Key, Case: Case{Types: []string{d.String()}}})
 					continue
 				}
-				if _, _, _, err := syntax.ParseSourceBytes(b, filepath.Join(mro, "x.mro"), []string{mro}, false); err != nil {
+				if _, _, _, err := syntax.ParseSourceBytes(b, filepath.Join(mro, "x.mro"), res.MroPaths, false); err != nil {
 					r.Report(ev.Finding{Sig: "C16:fork-invocation-does-not-compile", What: d.String() + " " + j.Key + ": " + firstLine(err.Error()) + "\n" + ev.Short(string(b), 600), Case: Case{Types: []string{d.String()}}})
 					continue
 				}
-				inv, err := core.InvocationDataFromSource(b, []string{mro})
+				inv, err := core.InvocationDataFromSource(b, res.MroPaths)
 				if err != nil {
 					r.Report(ev.Finding{Sig: "C16:fork-invocation-unreadable", What: d.String() + " " + j.Key + ": " + err.Error(), Case: Case{Types: []string{d.String()}}})
 					continue
